@@ -12,7 +12,6 @@ package main
 import (
 	"fmt"
 	"os"
-	"path/filepath"
 	"runtime"
 	"sort"
 	"sync"
@@ -76,17 +75,18 @@ func set2(m map[string]map[string]bool, a, b string, v bool) {
 }
 
 type hist struct {
-	idx  int
-	rng  *vf.RNG
-	ids  []string
-	pool []*txgen.Key
-	next int
-	m    *iddrv.Model
-	env  *iddrv.Env
-	cs   []*cmodel
-	log  []map[string]interface{}
-	r    *vf.Run
-	dead bool
+	idx    int
+	rng    *vf.RNG
+	ids    []string
+	pool   []*txgen.Key
+	next   int
+	m      *iddrv.Model
+	env    *iddrv.Env
+	cs     []*cmodel
+	log    []map[string]interface{}
+	r      *vf.Run
+	dead   bool
+	broken bool // a block commit failed or panicked: do not reuse the ledger
 }
 
 func (h *hist) fresh() *txgen.Key {
@@ -342,12 +342,12 @@ func (h *hist) commit1(code []byte, signers []*txgen.Key, ts uint32) (iddrv.TxRe
 	var cerr error
 	if p := vf.Catch(func() { res, cerr = h.env.Commit([]*types.Transaction{tx}, ts) }); p != nil {
 		h.r.Violation("panic-in-block-execution", fmt.Sprint(p), h.witness(nil))
-		h.dead = true
+		h.dead, h.broken = true, true
 		return iddrv.TxResult{}, false
 	}
 	if cerr != nil {
 		h.r.Inconclusive(fmt.Sprintf("history %d: commit: %v", h.idx, cerr))
-		h.dead = true
+		h.dead, h.broken = true, true
 		return iddrv.TxResult{}, false
 	}
 	return res[0], true
@@ -758,7 +758,7 @@ func (h *hist) stepKey() {
 	res, cerr := h.env.Commit([]*types.Transaction{tx}, h.nextTs())
 	if cerr != nil {
 		h.r.Inconclusive(fmt.Sprintf("history %d: commit: %v", h.idx, cerr))
-		h.dead = true
+		h.dead, h.broken = true, true
 		return
 	}
 	ok := res[0].State == 1
@@ -837,7 +837,7 @@ func (h *hist) stepTime() {
 	res, err := h.env.Commit(txs, ts)
 	if err != nil {
 		h.r.Inconclusive(fmt.Sprintf("history %d: commit: %v", h.idx, err))
-		h.dead = true
+		h.dead, h.broken = true, true
 		return
 	}
 	h.log = append(h.log, map[string]interface{}{"op": "time-step", "kind": kind, "time": ts, "in_block_probes": len(ps)})
@@ -942,29 +942,28 @@ func (h *hist) probeAll() {
 
 // ---------------------------------------------------------------- history
 
-func runHistory(r *vf.Run, scratch string, idx int, rng *vf.RNG, nSteps int) {
-	dir := filepath.Join(scratch, fmt.Sprintf("h%d", idx))
-	defer os.RemoveAll(dir)
-	env, err := iddrv.NewEnv(dir)
+func runHistory(r *vf.Run, pool *iddrv.Pool, idx int, rng *vf.RNG, nSteps int) {
+	env, err := pool.Get()
 	if err != nil {
 		r.Inconclusive(fmt.Sprintf("history %d: cannot open ledger: %v", idx, err))
 		return
 	}
-	defer env.Close()
-	h := &hist{idx: idx, rng: rng, m: iddrv.NewModel(), env: env, r: r}
+	var h *hist
+	defer func() { pool.Put(env, h == nil || h.broken) }()
+	h = &hist{idx: idx, rng: rng, m: iddrv.NewModel(), env: env, r: r}
 	for i := 0; i < nIDs; i++ {
 		h.ids = append(h.ids, iddrv.DetID(fmt.Sprintf("c41/%d/%d/%d", vf.Seed(), idx, i)))
 	}
 	h.pool = txgen.PickSetLight(rng.Sub(1), 48)
 	// Ethereum-type keys cannot witness an ontid call (their transaction witness address is not
 	// the key's address); keep them out of this monitor's identities
-	var pool []*txgen.Key
+	var keys []*txgen.Key
 	for _, k := range h.pool {
 		if k.Kind != txgen.EthSecp256k1 {
-			pool = append(pool, k)
+			keys = append(keys, k)
 		}
 	}
-	h.pool = pool
+	h.pool = keys
 
 	// contracts: A = the init script's own address (direct call), B = a deployed NeoVM
 	// contract whose code calls auth.initContractAdmin
@@ -1002,6 +1001,7 @@ func runHistory(r *vf.Run, scratch string, idx int, rng *vf.RNG, nSteps int) {
 	res, err := env.Commit(txs, 0)
 	if err != nil {
 		r.Inconclusive(fmt.Sprintf("history %d: setup block: %v", idx, err))
+		h.broken = true
 		return
 	}
 	for i, x := range res {
@@ -1076,15 +1076,16 @@ func main() {
 		"seeded histories of ~30 state-changing steps over 4 registered ONT IDs and 2 contracts (one addressed by its init script, one deployed NeoVM proxy): initContractAdmin, transfer, assignFuncsToRole, assignOntIDsToRole, delegate (shapes: right, delegate-of-delegate, level 0/2/3+, to-already-holds, period 0/1/overflow/2^32), withdraw (root / non-root / none), ontid key add/revoke/ID revoke, time steps landing the clock exactly on expiry and expiry+1; signer classes right / extra / no-signature / wrong keyNo / revoked key / empty; after every step verifyToken is pre-executed for all (contract, caller, fn) with the caller's key plus 5 key-control variants, boundary blocks also carry verifyToken transactions; a case = one verifyToken evaluation, distinct by (model reason, variant, answer, mode, contract)")
 	scratch := vf.Scratch("c41")
 	defer os.RemoveAll(scratch)
-	nHist := vf.N(300, 4000)
+	nHist := vf.N(300, 3000)
 	workers := runtime.NumCPU()
 	if workers > 16 {
 		workers = 16
 	}
 	rng := vf.NewRNG(vf.Seed())
+	pool := iddrv.NewPool(scratch, 25)
 	vf.Parallel(nHist, workers, func(i int) {
 		hr := rng.Sub(uint64(i))
-		runHistory(r, scratch, i, hr, hr.Sub(99).Range(26, 34))
+		runHistory(r, pool, i, hr, hr.Sub(99).Range(26, 34))
 	})
 
 	for _, m := range []string{"initContractAdmin", "transfer", "assignFuncsToRole", "assignOntIDsToRole", "delegate", "withdraw"} {
@@ -1097,6 +1098,7 @@ func main() {
 		r.Require(a, 5)
 	}
 	r.Require("answer/true/delegated-role:fn-set-extended-later", 3)
+	r.Require("shape/assign-role-to-its-current-delegate", 3)
 	mmMu.Lock()
 	r.Extra("op_outcome_mismatches", mismatches)
 	if len(mmSample) > 0 {
@@ -1118,6 +1120,7 @@ func main() {
 	r.Extra("boundary_convention", "statement: valid while now <= expiry; the contract's verifyToken agrees (skips a token only when expireTime < now); its getAuthToken (used by delegate/withdraw/assign) uses now < expireTime")
 	r.Assume("\"proved control of its key\" = ontid.verifySignature: identity valid, key keyNo exists and is not revoked, its address is in the transaction's witness set (authentication right not required)")
 	r.Assume("which authorised operations the contract chooses to refuse (e.g. delegating to somebody who already holds the role) is not judged: the model follows the contract's reported outcome for operations that are legitimate by the statement, ignores reported successes that are not, and the verifyToken probes decide")
+	pool.Close()
 	os.RemoveAll(scratch)
 	r.Finish()
 }
